@@ -26,6 +26,8 @@ def decode_value(v: Any) -> Any:
     if isinstance(v, dict):
         if "$e" in v:
             return getattr(M.load().Color, v["$e"])
+        if "$se" in v:
+            return getattr(M.load().SKind, v["$se"])
         if "$t" in v:
             return tuple(decode_value(x) for x in v["$t"])
         if "$fs" in v:
@@ -50,10 +52,10 @@ def typed_value(v: Any) -> Any:
         return ("int", v)
     if isinstance(v, float):
         return ("float", repr(v))
+    if isinstance(v, enum.Enum):  # before str: an enum with a str mixin is an enum member
+        return ("enum", type(v).__name__, v.name)
     if isinstance(v, str):
         return ("str", v)
-    if isinstance(v, enum.Enum):
-        return ("enum", type(v).__name__, v.name)
     if isinstance(v, PurePath):
         return ("path", v.as_posix())
     if isinstance(v, tuple):
@@ -181,7 +183,7 @@ def prop_value(e: ENode, f: M.FieldDef) -> Any:
     if f.init and f.name in e.props:
         return e.props[f.name]
     return eval(f.default, {"Color": M.load().Color, "Path": Path, "frozenset": frozenset,  # noqa: S307
-                            "Bomb": M.load().Bomb})
+                            "Bomb": M.load().Bomb, "SKind": M.load().SKind})
 
 
 def content_key(e: ENode, memo: dict | None = None) -> Any:
@@ -362,6 +364,11 @@ def st_value(kind: str, strs: Any = None):
     if kind == "fsstr":
         return st.lists(st.sampled_from(["a", "b", "c", "aa", "zz", ""]), max_size=4, unique=True).map(
             lambda xs: {"$fs": xs})
+    if kind == "fsfs":
+        inner = st.lists(st.sampled_from([1, 18, 2, 35, 0]), max_size=2, unique=True).map(lambda xs: {"$fs": xs})
+        return st.lists(inner, max_size=3, unique_by=lambda d: tuple(sorted(d["$fs"]))).map(lambda xs: {"$fs": xs})
+    if kind == "senum":
+        return st.sampled_from(["ADD", "SUB"]).map(lambda n: {"$se": n})
     if kind == "str":
         return s
     if kind == "optstr":
@@ -432,7 +439,7 @@ class TreeGen:
         for f in M.prop_fields(cn):
             if not f.init:
                 continue
-            if not self.frozensets and f.kind in ("fsint", "fsstr"):
+            if not self.frozensets and f.kind in ("fsint", "fsstr", "fsfs"):
                 continue
             d[f.name] = st_value(f.kind, self.strs)
         # optional: a property may be left at its default
@@ -450,7 +457,7 @@ class TreeGen:
     def leaf(self):
         from hypothesis import strategies as st
 
-        names = ["LeafA", "LeafA", "LeafB", "SubLeafA", "SubSubLeafA", "Strs", "Vals", "TagA", "SlotLeaf"]
+        names = ["LeafA", "LeafA", "LeafB", "SubLeafA", "SubSubLeafA", "Strs", "Vals", "TagA", "SlotLeaf", "Checked"]
         if self.falsy:
             names.append("Falsy")
         if self.servals:
